@@ -307,6 +307,9 @@ def run(rep: Report, tier: str) -> None:  # noqa: C901
     from sa.checks.c19 import period_limits as _pl_g
     from sa.checks.c21 import spelling_grid as _sg_g
     _sg_g(rep, "R03.13", {k.lower(): v for k, v in _sqlx_g.load_macros(P).items()}, _pl_g(P))
+    # ---- R03.14: a time_agg grouping key is the calendar period that contains the date (shared with C08 R08.8) ----
+    from sa.checks.c08 import _time_agg_date_table as _tagg
+    _tagg(P, rep, "R03.14")
     rep.assumptions = ["DuckDB's aggregates of the same name implement the VTL aggregate operators (null measure values ignored)",
                        "SQLBuilder.having() conjoins conditions (read from sql_builder.py: _having_conditions.append)"]
 
